@@ -473,6 +473,10 @@ where
                         Ok(CoroutineState::Suspend(y, timestamp))
                     }
                     CoroutineState::Syscall(y, syscall, state) => {
+                        // the wake-up time of a yield made in syscall state is in the state itself,
+                        // drop what `until`/`cancel` queued so it can not leak to another coroutine
+                        _ = Suspender::<Yield, Param>::timestamp();
+                        _ = Suspender::<Yield, Param>::is_cancel();
                         Ok(CoroutineState::Syscall(y, syscall, state))
                     }
                     _ => Err(Error::other(format!(
